@@ -331,7 +331,7 @@ func main() {
 		ks = append(ks, mon.Bytes(rng, 32))
 	}
 	nrand := r.Pick(20, 400)
-	stride := r.Pick(5, 1)
+	stride := r.Pick(2, 1)
 	for ki, k := range ks {
 		for ui, u := range us {
 			if (ki+ui)%stride != 0 && ki >= 13 {
@@ -344,14 +344,14 @@ func main() {
 		}
 		cases = append(cases, Case{Kind: "base", K: mon.Hex(k)})
 	}
-	for i := 0; i < r.Pick(300, 20000); i++ {
+	for i := 0; i < r.Pick(3000, 150000); i++ {
 		cases = append(cases, Case{Kind: "pair", K: mon.Hex(mon.Bytes(rng, 32)), U: mon.Hex(mon.Bytes(rng, 32))})
 	}
 	cases = append(cases, Case{Kind: "lengths"})
-	for i := 0; i < r.Pick(4, 60); i++ {
+	for i := 0; i < r.Pick(20, 400); i++ {
 		cases = append(cases, Case{Kind: "field-contract", Idx: i})
 	}
-	for i := 0; i < r.Pick(10, 300); i++ {
+	for i := 0; i < r.Pick(40, 1500); i++ {
 		cases = append(cases, Case{Kind: "conv", Idx: i})
 	}
 	r.Observe("cases", len(cases))
